@@ -1,5 +1,6 @@
 import GeomV.C10.Lemmas
 import GeomV.C10.LemmasT
+import GeomV.C10.LemmasM
 /-!
 # C10 — property theorems
 
@@ -10,7 +11,7 @@ Part 1, `Geom.Transform` (model `GeomTransform.lean` of /repo/transform.go, spec
 * `C10_vertex_i`        index form of "i-th vertex".
 * `C10_nil_identity`    a nil transformer is the identity.
 * `C10_error_no_panic`  if `t` fails first on vertex `i`, every type returns exactly that error; never a panic.
-* `C10_input_unchanged` see below.
+* `C10_input_unchanged_partial`  on the memory model of `Mem.lean` (point-slice types only).
 Part 2, transformers (model `Transformer.lean` of proj/transform.go + adjust_axis.go):
 * `C10_pure`            history independence over any pool of transformers sharing SRs.
 * `C10_step_state_eq`   a call leaves a settled heap and the captured pair unchanged.
@@ -104,6 +105,34 @@ theorem snapshot_multiLineString_panics (t : TF E α) (l : List (Pt α)) (ls : L
   simp [multiLineLoopSnapshot, multiLineLoop, lineStringT, ptsT_eq, h, lift]
 
 end GeomTransform
+
+section InputUnchanged
+variable {E α : Type}
+
+/-- **C10_input_unchanged_partial** (clause "leaves the input untouched"), on the memory model of
+`Mem.lean`, for `LineString.Transform` — the loop shared by `MultiPoint` (through `Point.Transform`) and
+by every ring of a `Polygon`: whatever the transformer does (success, error on any vertex), every
+backing array that existed before the call, the input's included, is bit-for-bit what it was, and the
+result of a successful call is a new array, not the input's.
+FULL STATEMENT NOT PROVED: the same for the nested types (`[]LineString`, `[]Path`, `[]Polygon`,
+`[]Geom` headers pointing to further arrays) and for `*Bounds`; there the clause is checked on the real
+slices by the correspondence run (input compared before/after and after scribbling over the output). -/
+theorem C10_input_unchanged_partial (zero : Pt α) (t : TF E α) (a : Nat) (m : Mem.Mem α) :
+    (Mem.lineStringM zero t a m).1.take m.length = m ∧
+    (∀ a2, (Mem.lineStringM zero t a m).2 = .ok a2 → a2 = m.length ∧ a < a2) :=
+  Mem.lineStringM_mem zero t a m
+
+/-- non-vacuity: a two-vertex line at address 0, swapped coordinates; input array kept, result at 1 -/
+example :
+    Mem.lineStringM (E := Nat) (α := Nat) ⟨0, 0⟩ (fun p => .ok ⟨p.y, p.x⟩) 0 [[⟨1, 2⟩, ⟨3, 4⟩]] =
+      ([[⟨1, 2⟩, ⟨3, 4⟩], [⟨2, 1⟩, ⟨4, 3⟩]], .ok 1) := by rfl
+/-- … and with a transformer failing on the second vertex the input array is still intact -/
+example :
+    Mem.lineStringM (E := Nat) (α := Nat) ⟨0, 0⟩ (fun p => if p.x = 3 then .error 7 else .ok ⟨p.y, p.x⟩) 0
+        [[⟨1, 2⟩, ⟨3, 4⟩]] =
+      ([[⟨1, 2⟩, ⟨3, 4⟩], [⟨2, 1⟩, ⟨0, 0⟩]], .error (.err 7)) := by rfl
+
+end InputUnchanged
 
 section Transformer
 variable {F P Err : Type} [FOps F]
